@@ -37,7 +37,27 @@ def _mk_target(kind, w):
             self.calls += 1
             return x
 
+    if kind == "deep":
+        # the tensors sit two sub-objects below the hooked module (three-component attribute paths)
+        class Outer(inferno.Module):
+            def __init__(self):
+                inferno.Module.__init__(self)
+                self.inner = inferno.Module()
+                self.inner.leaf = Target(w)
+                self.calls = 0
+
+            def forward(self, x):
+                self.calls += 1
+                return x
+
+        return Outer()
     return Target(w)
+
+
+def _rget(obj, path):
+    for part in path.split("."):
+        obj = getattr(obj, part)
+    return obj
 
 
 class HookWorld(World):
@@ -53,7 +73,7 @@ class HookWorld(World):
     def generate(self, seed, prop, tier):
         rc, ro = stream(seed, "config"), stream(seed, "ops")
         shape = rc.choice([[3], [2, 3], [3, 2, 2], [4, 4]])
-        cfg = {"shape": shape, "target": rc.choice(["toy", "toy", "dense"]), "tseed": rc.randrange(1 << 30)}
+        cfg = {"shape": shape, "target": rc.choice(["toy", "toy", "dense"]), "tseed": rc.randrange(1 << 30), "deep": stream(seed, "deep").random() < 0.35}
         if cfg["target"] == "dense":
             shape = cfg["shape"] = [2, 3]   # the weight of the 3 -> 2 dense connection
         ops = []
@@ -126,9 +146,10 @@ class HookWorld(World):
             attrs = {"weight": "weight", "buf": "weight"}
             inp = torch.zeros(1, 3)
         else:
-            target = _mk_target("toy", w0)
+            deep = bool(cfg.get("deep"))
+            target = _mk_target("deep" if deep else "toy", w0)
             tshape = shape
-            attrs = {"weight": "weight", "buf": "buf"}
+            attrs = {"weight": "inner.leaf.weight", "buf": "inner.leaf.buf"} if deep else {"weight": "weight", "buf": "buf"}
             inp = torch.zeros(1)
         target.train()
         log = {}  # slot -> list of (calls_seen_at_hook_time)
@@ -172,7 +193,7 @@ class HookWorld(World):
             return (m["train"] and target.training) or (m["eval"] and not target.training)
 
         def attr_value(m):
-            return getattr(target, attrs[m["attr"]]).detach().clone()
+            return _rget(target, attrs[m["attr"]]).detach().clone()
 
         def check_post(m, s, where):
             """post-condition of a shipped hook that has just run"""
@@ -319,13 +340,14 @@ class HookWorld(World):
                         v[0] = 0.0
                         if len(tshape) == 1:
                             v[:] = 0.0
-                    setattr(target, a, v) if a != "buf" else target.buf.copy_(v)
+                    owner = _rget(target, a.rpartition(".")[0]) if "." in a else target
+                    setattr(owner, a.rpartition(".")[2], v) if not a.endswith("buf") else owner.buf.copy_(v)
                 ctx.log("perturb", op["pseed"])
             elif name == "call":
                 before_calls = target.calls
                 firing = [(k, m) for k, m in model.items() if m["alive"] and m["registered"] and enabled(m)]
                 shipped = [(k, m) for k, m in firing if m["kind"] in ("clamp", "norm")]
-                snap = {a: getattr(target, a).detach().clone() for a in set(attrs.values())}
+                snap = {a: _rget(target, a).detach().clone() for a in set(attrs.values())}
                 for k, m in shipped:
                     m["_before"] = snap[attrs[m["attr"]]]
                 with ctx.impl("module call"):
@@ -358,7 +380,7 @@ class HookWorld(World):
                 if not shipped:
                     # no shipped hook armed: attributes must be untouched by the call
                     for a, v in snap.items():
-                        if not torch.equal(getattr(target, a).detach(), v):
+                        if not torch.equal(_rget(target, a).detach(), v):
                             ctx.fail("ran_when_not_armed", {"attr": a, "training": target.training}, f"attribute {a} changed by a call with no armed hook")
                 check_counts("call")
             elif name == "manual":
